@@ -72,7 +72,7 @@ def repr_lean(p):
 def _universe():
     from klongpy.core import KGSym, KGChar
     atoms = {
-        'integer': [0, 1, -1, 42, -17, 10 ** 12, -10 ** 15],
+        'integer': [0, 1, -1, 42, -17, 10 ** 12, -10 ** 15, 2 ** 53 + 1, -(2 ** 53) - 1, 9223372036854775807, -9223372036854775807],
         'real': [0.5, -2.25, 1e-7, 1.5e20, 3.0, -0.0001],
         'char': [KGChar(c) for c in 'a"0 []c\n'],
         'string': ['', 'a', 'hello world', 'say "hi"', '""', 'a\nb', '[1 2]', ':"c"', '0ca', 'x""', '"'],
@@ -120,6 +120,8 @@ def check_roundtrip_bounded(ctx):
     kinds['list'] = [np.asarray([1, 2, 3]), np.asarray(flat, dtype=object), np.asarray([np.asarray([1, 2]), np.asarray(['x', KGChar('"')], dtype=object), 'say "hi"'], dtype=object),
                      np.asarray([], dtype=object), np.asarray([np.asarray([np.asarray([1]), 'a'], dtype=object)], dtype=object)]
     kinds['list'] += [np.asarray(['a]\nb', 0], dtype=object), np.asarray(['x\ny', np.asarray([1, 'p\n]q'], dtype=object)], dtype=object)]
+    # lists of empty lists (as the reader builds them: arrays with members but no cells)
+    kinds['list'] += [k(t) for t in ('[[]]', '[[] []]', '[[[]]]', '[1 [[]]]', '["a" [[] []] 0cx]', '[[] 1]')]
     kinds['dictionary'] = [{1: 2}, {'a': np.asarray([1, 2]), KGSym('k'): 'v'}, {}]
     for kind, vals in kinds.items():
         bad = None
